@@ -1,7 +1,7 @@
 #!/bin/bash
 # tools/run_mutant.sh <PID> <i> [tier] [CHECKID]  — run a check against a seeded change, in the
 # sub-agent's scratch worktree (VERIF_REPO), never in /repo.  Prints one summary line.
-PID=$1; I=$2; TIER=${3:-quick}; CHK=${4:-$PID}; D=/tmp/mw/$PID; M=$D/mutants
+PID=$1; I=$2; TIER=${3:-quick}; CHK=${4:-$PID}; D=${MW:-/tmp/mw2}/$PID; M=$D/mutants
 cd "$D" || exit 2
 git checkout -q -- . 2>/dev/null
 git apply "$M/m$I.diff" || { echo "$PID m$I: patch does not apply"; exit 2; }
